@@ -17,7 +17,7 @@ RULE = (
     "instance, type, nan), raise one of ValueError / custom Exception / KeyboardInterrupt / SystemExit / "
     "CancelledError / custom BaseException, signal no-result, or run for dur vs a `timeout` label given "
     "as int, float or str (below / equal / above); typed user labels; result-backend failures on a generated subset "
-    "of saves; messages that re-use the task id of an earlier message (redelivery); A in 1..3. Oracle on what the recording result backend receives: #set_result per task id (0 for "
+    "of saves; wall-clock steps (backwards and forwards) while a task runs; messages that re-use the task id of an earlier message (redelivery); A in 1..3. Oracle on what the recording result backend receives: #set_result per task id (0 for "
     "no-result, else 1), is_err / return_value / type(error) as scripted (timeout => TimeoutError and the body is "
     "cancelled at enter+timeout; equal => either), result.labels == the message's typed labels, and after a failed "
     "save the message is still acked and every later message processed. "
@@ -54,6 +54,8 @@ def scenario() -> Any:
                 m.pop("rv")
                 m.pop("rvobj")
             m["ack"] = "sync"
+            if not m["clock_step"] or m["kind"] != "async":
+                m.pop("clock_step")
         d["msgs"] = msgs
         d.update({"P": 1, "N": None, "W": None, "stop": None, "ends": True, "ack_type": "when_saved"})
         d["fail_saves"] = sorted(d["fail_saves"])
@@ -70,6 +72,7 @@ def scenario() -> Any:
         "rv": JSONV, "rvobj": st.sampled_from(sorted(wh.OBJECTS)),
         "labels": st.dictionaries(st.sampled_from(["u1", "u2", "prio", "x-y", "Ключ"]), LABELV, max_size=3),
         "dup": st.one_of(st.none(), st.none(), st.none(), st.none(), st.integers(0, 5)),
+        "clock_step": st.sampled_from([0, 0, 0, -5.0, 3600.0, -0.5]),   # the wall clock jumps while this task runs
     })).map(lambda t: {**t[0], **t[1]})
     return st.fixed_dictionaries({
         "A": st.integers(1, 3),
